@@ -1,6 +1,7 @@
 package ed25519
 
 import (
+	"runtime"
 	"bytes"
 	"crypto"
 	"errors"
@@ -404,6 +405,56 @@ func jobC13(c *rt.Ctx) {
 					}
 				}
 			}
+		}
+	}
+	// the environment as a dimension: one malformed entry in a full chunk (and in a second chunk) under
+	// EVERY GOMAXPROCS value 1..64 and 96, 128, 256 - never a panic, never an error (work that is split
+	// over as many workers as there are processors has its partition cases here)
+	c.Require("batch-entries/gomaxprocs")
+	{
+		var gmps []int
+		for g := 1; g <= 64; g++ {
+			gmps = append(gmps, g)
+		}
+		gmps = append(gmps, 96, 128, 256)
+		for gi, g := range gmps {
+			if !c.Take() {
+				continue
+			}
+			c.Class("batch-entries/gomaxprocs")
+			c.Distinct(fmt.Sprintf("gmp %d", g), true)
+			old := runtime.GOMAXPROCS(g)
+			for si, sh := range [][2]int{{64, 0}, {64, 63}, {64, 31}, {70, 3}, {128, 127}, {133, 64}} {
+				kd := kinds[(gi+si)%len(kinds)]
+				vs := vAll[(gi+si)%len(vAll)]
+				entries := append([]triple{}, fillers(vs, sh[0])...)
+				kd.mut(&entries[sh[1]])
+				zip := (gi+si)%2 == 0
+				all, valid, err, pv := implBatch(entries, vs, zip, rt.NewRng(c.Seed, "c13g"))
+				c.Step(1)
+				bad := pv != nil || err != nil || len(valid) != sh[0]
+				if !bad {
+					and := true
+					for i, v := range valid {
+						want := true
+						if i == sh[1] {
+							t := entries[i]
+							want = false
+							if len(t.key) == 32 && !(vs.v == ref.Ph && len(t.msg) != 64) {
+								want, _ = modelVerify(t, vs, zip)
+							}
+						}
+						bad = bad || v != want
+						and = and && v
+					}
+					bad = bad || all != and
+				}
+				if bad {
+					c.Violation(fmt.Sprintf("C13 batch malformed kind=%s gomaxprocs", kd.name), fmt.Sprintf("VerifyBatch with malformed entry %s at %d of %d (%s) under GOMAXPROCS=%d: panic=%v err=%v all=%v", kd.name, sh[1], sh[0], vs, g, pv, err, all),
+						map[string]interface{}{"kind": kd.name, "pos": sh[1], "n": sh[0], "gomaxprocs": g})
+				}
+			}
+			runtime.GOMAXPROCS(old)
 		}
 	}
 	// no input is modified, whatever its CONTENT: the C01 triple space at deviation level <= 1 (torsion,
